@@ -33,11 +33,16 @@ Definition ggroup (c : gcircuit) (g : nat) : list gedge := filter (fun e => Nat.
 Definition group_spread (c : gcircuit) (g : nat) : bool := existsb has_spread (ggroup c g).
 
 (* delay `m` of a slot as _collect_delays_from_edges hands it on: time units when the edge has a spread, steps otherwise *)
+(* model switch for fixes/proposed_fix_C11_dde_steps.diff (false = the code as it is): with dde_approx > 0 a delay without
+   spread is no longer discretised before rate = n/m.  Ring.fixed_D15 (placeholder 0 instead of 1 for an edge without delay)
+   acts here too: order = dde_approx if m else 0. *)
+Definition fixed_dde_steps : bool := false.
+Definition continuous (c : gcircuit) : bool := fixed_dde_steps && Nat.ltb 0 (gdde c).
 Definition slot_m (c : gcircuit) (e : gedge) : Qc :=
   match gd e with
-  | None => 1%Qc
+  | None => of_nat nokey_steps
   | Some (d, Some _) => d
-  | Some (d, None) => of_nat (steps_of d (gdt c))
+  | Some (d, None) => if continuous c then d else of_nat (steps_of d (gdt c))
   end.
 Definition sq (q : Qc) : Qc := (q * q)%Qc.
 Definition slot_order (c : gcircuit) (e : gedge) : nat :=
@@ -49,9 +54,10 @@ Definition slot_order (c : gcircuit) (e : gedge) : nat :=
 Definition slot_rate (c : gcircuit) (e : gedge) : Qc :=
   if Qceqb (slot_m c e) 0%Qc then 0%Qc else (of_nat (slot_order c e) / slot_m c e)%Qc.
 
+Definition g_has_delay (e : gedge) : bool := match gd e with Some _ => true | None => false end.
 (* add_delay of the group of e *)
 Definition gadd_delay (c : gcircuit) (g : nat) : bool :=
-  if group_spread c g
+  if group_spread c g || (continuous c && existsb g_has_delay (ggroup c g))
   then existsb (fun e => negb (Qle_bool (this (slot_m c e)) (this (gdt c)))) (ggroup c g)
   else existsb (fun e => negb (Qle_bool (this (slot_m c e)) 1)) (ggroup c g).
 
@@ -165,13 +171,14 @@ Definition gwf (c : gcircuit) : bool :=
                     | Some (d, None) => Qcpos d && (Nat.ltb 0 (gdde c) || group_spread c (gkey c (gsrc e)))
                     | None => true
                     end) (gedges c).
-(* every delayed edge carries a spread (a plain delay next to a spread loses its delay; with dde_approx under a fixed
-   step its delay is taken in steps) *)
+(* every delayed edge carries a spread, or (repaired) dde_approx > 0 keeps its delay continuous.  As the code is, a plain delay
+   next to a spread loses its delay, and with dde_approx under a fixed step its delay is taken in steps *)
 Definition g_all_spread (c : gcircuit) : bool :=
-  forallb (fun e => match gd e with Some (_, None) => false | _ => true end) (gedges c).
-(* dde_approx > 0 turns an undelayed edge on a buffered source into a kernel of mean 1 *)
+  forallb (fun e => match gd e with Some (_, None) => continuous c | _ => true end) (gedges c).
+(* an undelayed edge on a buffered source must be a pass-through (order 0); as the code is, dde_approx > 0 turns it into a
+   kernel of mean 1 (holds of every circuit once Ring.fixed_D15 is on) *)
 Definition g_no_undelayed_kernel (c : gcircuit) : bool :=
-  forallb (fun e => match gd e with None => Nat.eqb (gdde c) 0 || negb (gadd_delay c (gkey c (gsrc e))) | _ => true end) (gedges c).
+  forallb (fun e => match gd e with None => Nat.eqb (slot_order c e) 0 || negb (gadd_delay c (gkey c (gsrc e))) | _ => true end) (gedges c).
 (* every delayed edge is actually implemented (its group has a delay above the step size) *)
 Definition g_above_step (c : gcircuit) : bool :=
   forallb (fun e => match gd e with Some _ => gadd_delay c (gkey c (gsrc e)) | None => true end) (gedges c).
@@ -179,14 +186,22 @@ Definition g_above_step (c : gcircuit) : bool :=
 Definition g_rates_exact (c : gcircuit) : bool :=
   forallb (fun e => Qceqb (chain_rate c e) (slot_rate c e)) (gedges c).
 Definition g_no_scalar_shared_chain (c : gcircuit) : bool := negb (gcrashes c).
-(* vectorize=True: a chain with >= 2 member slots whose slot indices are not contiguous (interleaved with another chain) is
-   written back through an index array and the target reads `buffered` one rhs call late (observed on the real code; NOT
-   modelled by Impl: this guard only delimits the class) *)
-Fixpoint dropwhile {A} (f : A -> bool) (l : list A) : list A :=
-  match l with [] => [] | x :: l' => if f x then dropwhile f l' else l end.
-Definition contiguous {A} (f : A -> bool) (l : list A) : bool :=
-  negb (existsb f (dropwhile f (dropwhile (fun x => negb (f x)) l))).
+(* vectorize=True: a chain with >= 2 member slots that does not hold all slots of its source variable is written back through
+   an index array; ComputeGraph._sort_var_updates takes the index constant for the written variable, so the in-edge equation
+   of a target class that precedes the source class in node order is emitted BEFORE the write-back and reads `buffered` one
+   rhs call late (observed on the real code, repaired by fixes/proposed_fix_C11_chain_order.diff; NOT modelled by Impl: this
+   guard only delimits the class) *)
+Definition same_class (a b : node) : bool := Bool.eqb (nsrc a) (nsrc b) && Nat.eqb (ncls a) (ncls b).
+Fixpoint first_pos (f : node -> bool) (l : list node) : nat :=
+  match l with [] => O | x :: l' => if f x then O else S (first_pos f l') end.
+Definition class_pos (c : gcircuit) (i : nat) : nat := first_pos (same_class (gnode c i)) (gnodes c).
+Definition array_writeback (c : gcircuit) (e : gedge) : bool :=
+  let sl := gslots' c (gkey c (gsrc e)) in
+  let m := length (filter (same_chain c e) sl) in
+  Nat.leb 2 m && Nat.ltb m (length sl).
 Definition g_contiguous_chains (c : gcircuit) : bool :=
-  negb (gvec c) || forallb (fun e => contiguous (same_chain c e) (gslots' c (gkey c (gsrc e)))) (gedges c).
+  negb (gvec c) ||
+  forallb (fun e => negb (gadd_delay c (gkey c (gsrc e)) && array_writeback c e && Nat.ltb (class_pos c (gtgt e)) (class_pos c (gsrc e))))
+          (gedges c).
 Definition gguards (c : gcircuit) : bool :=
   g_all_spread c && g_no_undelayed_kernel c && g_above_step c && g_rates_exact c && g_no_scalar_shared_chain c.
